@@ -333,6 +333,8 @@ def C10():
                        mirjobs.skip_table(r"^ts_bitmap_data$")))
     jobs.append(MirJob("c10_mir_announced_sizes", "fast-path update size, bitmapLength and the other counted fields announce exactly the structure's size for every field value (SMT)",
                        mirjobs.announce_table()))
+    jobs.append(MirJob("c10_mir_undecodable_update_continues", "read_fast_path: from the error arm of FastPathUpdate::from_fp the function cannot return - the loop goes on to the next update of the PDU (updates of other or unknown kinds do not disturb the bitmap updates that follow them)",
+                       mirjobs.fast_path_error_arm))
     return Prop("C10", [("core/tpkt.rs", "tpkt.rs")], jobs, lowerings=["L2"], stubs=[S1],
                 assumptions=["the rectangles reach read_fast_path's loops in wire order: Array::read pushes parsed elements in the order read (c18_data_array) - but parsing ts_fp_update / ts_bitmap_data from bytes is NOT executed"],
                 text="Reduced claim, decided on the MIR of the real read_fast_path: per iteration of the update and rectangle loops, which paths invoke the callback, how often, for which update kinds, and from which wire fields each BitmapEvent field is built (dataflow on the explored path + SMT for the compression flag).",
@@ -456,6 +458,8 @@ def C03():
                        mirjobs.layout_tables))
     jobs.append(MirJob("c03_mir_licence_flags", "sec::connect: the server's licence PDU is refused exactly when SEC_LICENSE_PKT is absent from its security flags - any additional flag a conforming server sets (SEC_LICENSE_ENCRYPT_CS, SEC_FLAGSHI_VALID, ...) is accepted (SMT over all 65536 flag values)",
                        mirjobs.licence_flag_test))
+    jobs.append(MirJob("c03_mir_licence_outcomes", "license::parse_payload: SERVER_NEW_LICENSE is accepted without parsing its (encrypted) body; the body is decoded as a licensing error message only on the ERROR_ALERT edge - both replies a conforming server may send end the licensing phase",
+                       mirjobs.licence_outcomes))
     return Prop("C03", [], jobs,
                 assumptions=["E3 explores every path of each function with call results unconstrained; the order is read off the successful paths"],
                 text="Reduced claim: the ORDER of the connection sequence, the dependence of every message on the preceding server reply, and the wiring of the server-assigned identifiers, decided on the MIR of mcs::Client::connect, Connector::connect, write_client_finalize, mcs::Client::shutdown and the activation automaton.",
